@@ -17,7 +17,7 @@ Theorem C04_apply_delta_frontier : forall now c d, nd_bounded d ->
     (st = Apply -> c_gc c' = c_gc c /\ c_max c < c_max c' /\ c_max c' = d_max d /\ c_hb c' = c_hb c /\
                    forall k o, kget k (c_kvs c) = Some o ->
                      exists o', kget k (c_kvs c') = Some o' /\ v_ver o <= v_ver o') /\
-    (st = ApplyAfterReset -> c_gc c < c_gc c' /\ c_gc c' = d_gc d /\ c_max c' = d_max d).
+    (st = ApplyAfterReset -> c_gc c < c_gc c' /\ c_gc c' = d_gc d /\ c_max c' = d_max d /\ c_hb c' = c_hb c).
 Proof. exact apply_delta_frontier. Qed.
 Print Assumptions C04_apply_delta_frontier.
 
